@@ -158,6 +158,27 @@ func (impl Implementation) Dggsvd3(jobU, jobV, jobQ lapack.GSVDJob, m, n, p int,
 		panic(shortWork)
 	}
 
+	// Check the slice lengths before the workspace query below starts
+	// using work[0].
+	if lwork != -1 {
+		switch {
+		case len(a) < (m-1)*lda+n:
+			panic(shortA)
+		case len(b) < (p-1)*ldb+n:
+			panic(shortB)
+		case wantu && len(u) < (m-1)*ldu+m:
+			panic(shortU)
+		case wantv && len(v) < (p-1)*ldv+p:
+			panic(shortV)
+		case wantq && len(q) < (n-1)*ldq+n:
+			panic(shortQ)
+		case len(alpha) != n:
+			panic(badLenAlpha)
+		case len(beta) != n:
+			panic(badLenBeta)
+		}
+	}
+
 	// Determine optimal work length.
 	impl.Dggsvp3(jobU, jobV, jobQ,
 		m, p, n,
@@ -175,23 +196,6 @@ func (impl Implementation) Dggsvd3(jobU, jobV, jobQ lapack.GSVDJob, m, n, p int,
 	work[0] = float64(lwkopt)
 	if lwork == -1 {
 		return 0, 0, true
-	}
-
-	switch {
-	case len(a) < (m-1)*lda+n:
-		panic(shortA)
-	case len(b) < (p-1)*ldb+n:
-		panic(shortB)
-	case wantu && len(u) < (m-1)*ldu+m:
-		panic(shortU)
-	case wantv && len(v) < (p-1)*ldv+p:
-		panic(shortV)
-	case wantq && len(q) < (n-1)*ldq+n:
-		panic(shortQ)
-	case len(alpha) != n:
-		panic(badLenAlpha)
-	case len(beta) != n:
-		panic(badLenBeta)
 	}
 
 	// Compute the Frobenius norm of matrices A and B.
